@@ -157,12 +157,14 @@ def u_recv(n):
         cover("rejected")
 
 
-def u_close(n, skip):
-    """close frame with status 1000 and an n-byte symbolic reason"""
+def u_close(n, skip, masked=False):
+    """close frame with status 1000 and an n-byte symbolic reason (optionally masked with a symbolic key: the library accepts
+    masked inbound frames; the reason that is judged is the UNMASKED one, the one that is delivered)"""
     quiet_logging()
     from websocket._exceptions import WebSocketProtocolException, WebSocketPayloadException
     reason = sx.sym_bytes("r", n)
-    sock = FakeSock([server_frame(1, 8, b"\x03\xe8" + reason), "eof"])
+    key = sx.sym_bytes("mk", 4) if masked else None
+    sock = FakeSock([server_frame(1, 8, b"\x03\xe8" + reason, key), "eof"])
     ws = new_ws(sock, skip_utf8_validation=skip)
     try:
         fr = ws.recv_frame()
@@ -179,7 +181,9 @@ def u_close(n, skip):
         sx.require(fr.data == b"\x03\xe8" + reason, "validation off: close body unchanged")
         cover("skip-delivered")
         return
-    sx.require(sx.Iff(ok, sx.utf8_valid(reason)), "close reason accepted exactly when well-formed UTF-8", n=n)
+    sx.require(sx.Iff(ok, sx.utf8_valid(reason)), "close reason accepted exactly when well-formed UTF-8", n=n, masked=masked)
+    if ok:
+        sx.require(fr.data == b"\x03\xe8" + reason, "accepted close frame carries the (unmasked) status and reason", n=n, masked=masked)
     cover("accepted" if ok else "rejected")
 
 
@@ -268,6 +272,12 @@ def u_after_proto(nx, nz):
     cover("delivered-after")
 
 
+def u_after_reject(n, frags):
+    """after an ill-formed text message was rejected, later messages are judged on their own bytes (C02's R-after-reject, shared)"""
+    from .c02 import r_after_reject
+    return r_after_reject(n, frags)
+
+
 def _all_cuts(n, maxfrag):
     import itertools
     out = [()]
@@ -303,6 +313,9 @@ def obligations(tier):
                    bounds="connection lost after a non-final text fragment / inside a frame (2 symbolic bytes), connect() again on the same object, "
                           "then a text frame of 1..3 arbitrary bytes", must_cover=["re-accepted", "re-rejected"],
                    kernel=["WebSocket.connect", "frame_buffer", "continuous_frame", "recv_data_frame"]),
+        Obligation("U-after-reject", u_after_reject, [dict(n=n, frags=f) for n in (1, 2, 3) for f in (1, 2)],
+                   bounds="ill-formed text message of 1..3 symbolic bytes in 1 or 2 fragments (rejected), followed by a binary and a text frame",
+                   must_cover=["after-reject"], kernel=["continuous_frame.extract", "continuous_frame.add", "recv_data_frame"]),
         Obligation("U-after-proto", u_after_proto, [dict(nx=a, nz=b) for a in (1, 2) for b in (1, 2)],
                    bounds="text fragment of 1..2 symbolic bytes, an interrupting text/binary frame (FIN symbolic), the caller receives again: "
                           "continuation or text frame of 1..2 symbolic bytes", must_cover=["delivered-after"],
@@ -310,7 +323,8 @@ def obligations(tier):
         Obligation("U-recv", u_recv, [dict(n=n) for n in range(0, 5 if thorough else 4)],
                    bounds="single text frame of 0..%d arbitrary bytes through recv()" % (4 if thorough else 3),
                    must_cover=["accepted", "rejected"], kernel=["WebSocket.recv"]),
-        Obligation("U-close", u_close, [dict(n=n, skip=s) for n in range(0, 5 if thorough else 4) for s in (False, True)],
-                   bounds="close frame 1000 + reason of 0..%d arbitrary bytes; validation on and off" % (4 if thorough else 3),
+        Obligation("U-close", u_close, [dict(n=n, skip=s) for n in range(0, 5 if thorough else 4) for s in (False, True)] +
+                   [dict(n=n, skip=False, masked=True) for n in (1, 2, 3)],
+                   bounds="close frame 1000 + reason of 0..%d arbitrary bytes; validation on and off; masked with a symbolic key for 1..3 bytes" % (4 if thorough else 3),
                    must_cover=["accepted", "rejected", "skip-delivered"], kernel=["ABNF.validate", "validate_utf8"]),
     ]
